@@ -185,3 +185,15 @@ Example lifecycle_nonvacuous :
   Ok (t_state (fst r5), t_completion_time (fst r5), snd r4))))))
   = Ok (TS_COMPLETED, 18, true).
 Proof. vm_compute. reflexivity. Qed.
+
+(* preemption and resumption (not exercised by the simulator machine, which has no preemption) *)
+Theorem preempt_resume_follow_lifecycle :
+  (forall d time d' u, task_preempt d time = Ok (d', u) -> t_state d = TS_RUNNING /\ t_state d' = TS_PREEMPTED /\
+      t_remaining_time d' = t_remaining_time d /\ t_start_time d' = t_start_time d) /\
+  (forall d time d' u, task_resume d time = Ok (d', u) -> t_state d = TS_PREEMPTED /\ t_state d' = TS_RUNNING /\
+      t_remaining_time d' = t_remaining_time d /\ t_last_step_time d' = time).
+Proof.
+  split; intros d time d' u H.
+  - unfold task_preempt in H. task_cases d; try discriminate; inversion H; subst; cbn; auto.
+  - unfold task_resume in H. task_cases d; try discriminate; inversion H; subst; cbn; auto.
+Qed.
